@@ -9,6 +9,7 @@ R3 library error protocol (T-liberr): each library result is tested with that li
 R4 lz4 length-prefix siblings agree (u32le size at +0, payload at +4).
 R5 level clamps by interval: the level reaching the library is inside its legal range.
 R6 every failure exit after the output was allocated frees it.
+R9 allocation wrappers (memmodel interpreter): my_malloc / my_calloc / my_realloc pass every size, 0 and sizes beyond 2^32 included, to the C library unchanged and fail only on a NULL result.
 """
 import re
 from .common import *
@@ -165,6 +166,9 @@ def run(ctx, res):
     _lz4_prefix(ctx, res)
     _inflate_growth(ctx, res)
 
+
+    # ---- R9 the allocation wrappers hand every request through --------------------------------------------
+    _alloc_wrappers(ctx, res)
 
 LIB_COMPRESSORS = {"LZ4_compress_default": (1, 3), "LZ4_compress_HC": (1, 3), "ZSTD_compress": (0, 1), "ZSTD_compressCCtx": (1, 2),
                    "snappy_compress": (2, 3), "deflate": (None, None)}
@@ -519,3 +523,47 @@ def _inflate_growth(ctx, res):
                               "realloc is called with size %s, which can be 0 (e.g. an empty decompressed buffer): realloc(p,0) returns NULL and my_realloc aborts"
                               % sz[:80], g.loc(e.node), p.describe(g))
     res.floor("C15.R8", 1)
+
+
+def _alloc_wrappers(ctx, res):
+    """C15.R9: an empty buffer is a legal input and output (mtbl_decompress of an empty block asks for 0 bytes): the
+    project's allocation wrappers must pass every size, 0 included, to the C library and fail only when it returns
+    NULL.  Decided by interpreting the wrappers' bodies over the allocator model (mtblcheck/memmodel.py)."""
+    from mtblcheck import memmodel as M
+    from mtblcheck import bits as B
+    prog = ctx.prog
+    U = "mtbl/compression.c"
+    res.floor("C15.R9", 3)
+    cases = {"my_malloc": [(0,), (1,), (4096,), ((1 << 33) + 5,)],
+             "my_calloc": [(1, 0), (0, 8), (1, 24), (3, 1 << 32)],
+             "my_realloc": [("null", 1), ("null", 4096), ("old", 1), ("old", (1 << 33) + 5)]}
+    for name, argsets in cases.items():
+        f = prog.func(name, U) or prog.func(name)
+        if f is None or f.body is None:
+            raise BrokenAnalysis("allocation wrapper %s has no body in the program" % name)
+        res.saw(f)
+        problems = []
+        for args in argsets:
+            I = M.MemInterp(prog, f.unit)
+            st = I.new_state()
+            want = args[0] * args[1] if name == "my_calloc" else args[-1]
+            a = list(args)
+            if name == "my_realloc":
+                if a[0] == "null":
+                    a[0] = B.Ptr(None, 0)
+                else:
+                    h = st.ext["heap"]
+                    h.allocs[0] = [16, True, True]
+                    h.next = 1
+                    a[0] = B.Ptr(("A", 0), 0)
+            try:
+                out = I.call(st, f, a)
+            except M.MemFault as e:
+                problems.append("%s%r: %s" % (name, tuple(x if isinstance(x, int) else "p" for x in args), e))
+                continue
+            for s2, r in out:
+                al = s2.ext["heap"].allocs.get(r.base[1]) if isinstance(r, B.Ptr) and isinstance(r.base, tuple) and r.base and r.base[0] == "A" else None
+                if al is None or not al[1] or al[0] < want:
+                    problems.append("%s%r returns %r (%s), not a live allocation of at least %d bytes" % (name, tuple(x if isinstance(x, int) else "p" for x in args), r, al, want))
+        res.check(not problems, "C15.R9", site(f, "passes-every-size"), "every request (0 bytes, 1 byte, more than 2^32 bytes) reaches the allocator with its size and comes back",
+                  "; ".join(problems[:2]) + ": a zero-length buffer (a legal input of mtbl_compress/mtbl_decompress) or a large one cannot be allocated", f.loc(f.body))
